@@ -453,7 +453,18 @@ class Interp:
         if k == "array":
             return [self.operand(fr, o) for o in rv[1]]
         if k == "closure":
-            return Closure(rv[1], [self.operand(fr, o) for o in rv[2]], self.closure_body(rv[1]))
+            body = self.closure_body(rv[1])
+            caps = [self.operand(fr, o) for o in rv[2]]
+            need = self.captures_needed(body)
+            if need > len(caps) and len(rv) > 3:
+                for nm in rv[3]:
+                    if len(caps) >= need:
+                        break
+                    if nm in fr:
+                        caps.append(fr[nm])
+            if need > len(caps):
+                raise Unsupported("closure %s needs %d captures, the MIR text shows %d" % (rv[1], need, len(caps)))
+            return Closure(rv[1], caps, body)
         if k == "cast":
             v = self.operand(fr, rv[1])
             return self.cast(v, rv[2], rv[3], self.static_ty(f, rv[1]))
@@ -705,6 +716,37 @@ class Interp:
                 if nref and trl in ("Display", "Debug", "Hash"):
                     return ("mirderef", prog.methods[k], nref, 1)
                 return ("mir", prog.methods[k])
+            # provided methods of std comparison traits, derived from the crate's own eq / cmp / partial_cmp
+            if trl == "PartialEq" and meth == "ne" and (tyl, "PartialEq", "eq") in prog.methods:
+                eqf = prog.methods[(tyl, "PartialEq", "eq")]
+                nref = len(re.match(r"^((?:&(?:mut )?)*)", ty).group(1).replace("mut ", ""))
+
+                def ne_model(I, a, n, eqf=eqf, nref=nref):
+                    args = list(a)
+                    for k in range(2):
+                        for _ in range(nref):
+                            if isinstance(args[k], Ref) and isinstance(args[k].get(), Ref):
+                                args[k] = args[k].get()
+                    r = I.call_mir(eqf, args)
+                    return z3.Not(r) if is_sym(r) else (not r)
+                return ("model", ne_model)
+            if trl in ("PartialOrd", "Ord") and meth in ("lt", "le", "gt", "ge", "max", "min") and ((tyl, "Ord", "cmp") in prog.methods or (tyl, "PartialOrd", "partial_cmp") in prog.methods):
+                cmpf = prog.methods.get((tyl, "Ord", "cmp"))
+                pcmpf = prog.methods.get((tyl, "PartialOrd", "partial_cmp"))
+
+                def ord_model(I, a, n, cmpf=cmpf, pcmpf=pcmpf, meth=meth):
+                    x = [Ref([v], 0) if not isinstance(v, Ref) else v for v in a[:2]]
+                    if cmpf is not None:
+                        o = deref(I.call_mir(cmpf, x)).variant - 1
+                    else:
+                        r = I.call_mir(pcmpf, x)
+                        if r.variant == 0:
+                            return False
+                        o = deref(r.fields[0]).variant - 1
+                    if meth in ("max", "min"):
+                        return (a[1] if o <= 0 else a[0]) if meth == "max" else (a[0] if o <= 0 else a[1])
+                    return {"lt": o < 0, "le": o <= 0, "gt": o > 0, "ge": o >= 0}[meth]
+                return ("model", ord_model)
             if (tyl in prog.layout.structs or tyl in prog.layout.enums) and (trl, meth) in prog.trait_defaults:
                 return ("mir", prog.trait_defaults[(trl, meth)])
             mdl = prog.find_model(base)
@@ -780,6 +822,20 @@ class Interp:
         if cv:
             return cv(self, args)
         raise Unsupported("call of non-function value %r" % (fv,))
+
+    def captures_needed(self, body):
+        """number of captured places the closure body projects out of its environment"""
+        if body is None:
+            return 0
+        f = self.prog.funcs[body]
+        if f._ncaps is None:
+            mx = -1
+            for raw in f.raw_blocks.values():
+                for line in raw:
+                    for m in re.finditer(r"\(\(\*_1\)\.(\d+): |\(_1\.(\d+): ", line):
+                        mx = max(mx, int(m.group(1) or m.group(2)))
+            f._ncaps = mx + 1
+        return f._ncaps
 
     def closure_body(self, key):
         """body of a closure created in the function on top of the call stack (spans inside macros are not unique)"""
